@@ -50,8 +50,24 @@ pub fn parse_uint(i: &[u8]) -> nom::IResult<&[u8], u64> {
     Ok((i, i.iter().fold(0, |res, &byte| (res << 8) | byte as u64)))
 }
 
+/// Maximum nesting depth of constructed values accepted by the parser.
+///
+/// The parser is recursive, so the depth must be bounded to keep hostile input
+/// from exhausting the stack.
+pub const MAX_NESTING_DEPTH: usize = 128;
+
 /// Parse raw BER data into a serializable structure.
 pub fn parse_tag(i: &[u8]) -> nom::IResult<&[u8], StructureTag> {
+    parse_tag_nested(i, 0)
+}
+
+fn parse_tag_nested(i: &[u8], depth: usize) -> nom::IResult<&[u8], StructureTag> {
+    if depth > MAX_NESTING_DEPTH {
+        return Err(nom::Err::Failure(Error::from_error_kind(
+            i,
+            ErrorKind::TooLarge,
+        )));
+    }
     let (mut i, ((class, structure, id), len)) = tuple((parse_type_header, parse_length))(i)?;
 
     let pl: PL = match structure {
@@ -69,7 +85,7 @@ pub fn parse_tag(i: &[u8]) -> nom::IResult<&[u8], StructureTag> {
             while content.input_len() > 0 {
                 // The content octets are all here: an element running past their
                 // end is an error, more input can't complete it.
-                let (j, sub) = parse_tag(content).map_err(|e| match e {
+                let (j, sub) = parse_tag_nested(content, depth + 1).map_err(|e| match e {
                     nom::Err::Incomplete(_) => {
                         nom::Err::Error(Error::from_error_kind(content, ErrorKind::Eof))
                     }
